@@ -506,6 +506,7 @@ type idxAux struct {
 	arrLen   int
 	idxL     *Layout
 	fuse     bool
+	loadOnly bool
 }
 
 type sliceAux struct {
@@ -911,6 +912,101 @@ func (in *Interp) tableSelect(cells []Value, idx Value) Value {
 	return r
 }
 
+// classFork handles a load from table[idx] with symbolic idx when the elements are
+// not scalars: the indices are partitioned into classes of identical elements and
+// the path branches on the class of idx (not on its value). Returns false if the
+// table holds symbolic cells (caller falls back to value concretisation).
+func (in *Interp) classFork(cells []Value, esz, n int, idx Value) bool {
+	for i := range cells {
+		if cells[i].T != nil {
+			return false
+		}
+	}
+	same := func(a, b int) bool {
+		for k := 0; k < esz; k++ {
+			x, y := &cells[a*esz+k], &cells[b*esz+k]
+			if x.K != y.K || x.C != y.C || x.N != y.N || x.M != y.M || x.W != y.W {
+				return false
+			}
+			if x.R != y.R {
+				xs, ok1 := x.R.(string)
+				ys, ok2 := y.R.(string)
+				if !(ok1 && ok2 && xs == ys) {
+					return false
+				}
+			}
+		}
+		return true
+	}
+	cls := make([]int, n)
+	var reps []int
+	for i := 0; i < n; i++ {
+		cls[i] = -1
+		for c, r := range reps {
+			if same(i, r) {
+				cls[i] = c
+				break
+			}
+		}
+		if cls[i] < 0 {
+			cls[i] = len(reps)
+			reps = append(reps, i)
+			if len(reps) > 64 {
+				return false
+			}
+		}
+	}
+	if len(reps) == n {
+		return false
+	}
+	// largest class last
+	size := make([]int, len(reps))
+	for _, c := range cls {
+		size[c]++
+	}
+	big := 0
+	for c := range size {
+		if size[c] > size[big] {
+			big = c
+		}
+	}
+	mine := cls[idx.C]
+	w := idx.W
+	for c := range reps {
+		if c == big {
+			continue
+		}
+		// term: idx in class c (disjunction over maximal runs)
+		t := in.TT.Bool(false)
+		for i := 0; i < n; {
+			if cls[i] != c {
+				i++
+				continue
+			}
+			j := i
+			for j+1 < n && cls[j+1] == c {
+				j++
+			}
+			var r *Term
+			if i == j {
+				r = in.TT.Cmp(OpEq, idx.T, in.TT.Const(uint64(i), w))
+			} else {
+				r = in.TT.And(in.TT.Cmp(OpUle, in.TT.Const(uint64(i), w), idx.T), in.TT.Cmp(OpUle, idx.T, in.TT.Const(uint64(j), w)))
+			}
+			t = in.TT.Or(t, r)
+			i = j + 1
+		}
+		if t.Op == OpConst {
+			continue
+		}
+		in.addDecision(t, c == mine, DIf)
+		if c == mine {
+			return true
+		}
+	}
+	return true
+}
+
 func allConcreteScalars(cells []Value) bool {
 	for i := range cells {
 		if cells[i].T != nil || (cells[i].K != KInt && cells[i].K != KBool) {
@@ -944,8 +1040,11 @@ func (in *Interp) idxAuxOf(ci *cinstr, xt types.Type, it types.Type) *idxAux {
 	if ia, ok := ci.ins.(*ssa.IndexAddr); ok {
 		refs := ia.Referrers()
 		if refs != nil && len(*refs) == 1 {
-			if u, ok := (*refs)[0].(*ssa.UnOp); ok && u.Op == token.MUL && (a.elem.Cat == tInt || a.elem.Cat == tBool) {
-				a.fuse = true
+			if u, ok := (*refs)[0].(*ssa.UnOp); ok && u.Op == token.MUL {
+				a.loadOnly = true
+				if a.elem.Cat == tInt || a.elem.Cat == tBool {
+					a.fuse = true
+				}
 			}
 		}
 	}
@@ -1000,6 +1099,11 @@ func (in *Interp) doIndexAddr(fr *frame, ci *cinstr) Value {
 		in.boundsDecision(idx, a.idxL.Signed, n)
 		if a.fuse && a.elem.N == 1 && n > 1 && allConcreteScalars(o.Cells[base:base+n]) {
 			return Value{K: KPtr, R: &symPtr{o: o, base: base, n: n, idx: idx}}
+		}
+		if a.loadOnly && a.elem.N >= 1 && n > 1 && n <= 4096 {
+			if in.classFork(o.Cells[base:base+n*a.elem.N], a.elem.N, n, idx) {
+				return Value{K: KPtr, R: o, C: uint64(base + int(idx.C)*a.elem.N)}
+			}
 		}
 		i := in.concretize(idx, a.idxL.Signed)
 		return Value{K: KPtr, R: o, C: uint64(base + int(i)*a.elem.N)}
